@@ -300,6 +300,9 @@ func findSegMetaFromNr(a *asset, rep *RepData, nr uint32, cfg *ResponseConfig, n
 	wrapLen := len(rep.Segments)
 	startNr := cfg.getStartNr()
 	nrAfterStart := int(nr) - startNr
+	if nrAfterStart < 0 || wrapLen == 0 { // No segment before startNumber
+		return segMeta{}, errNotFound
+	}
 	nrWraps := nrAfterStart / wrapLen
 	relNr := nrAfterStart - nrWraps*wrapLen
 	wrapDur := a.LoopDurMS * rep.MediaTimescale / 1000
